@@ -28,6 +28,8 @@ type mockSensor struct {
 	gateCnt int
 	blocked chan struct{}
 	release chan struct{}
+	// then: the sensor monitor stores this reading right after the next GetMovingAvg call (`cv.sensor ... then=`)
+	then *float64
 }
 
 func (s *mockSensor) arm(n int) {
@@ -58,7 +60,13 @@ func (s *mockSensor) GetMovingAvg() float64 {
 		close(bl)
 		<-rel
 	}
-	return s.avg
+	s.gmu.Lock()
+	v := s.avg
+	if s.then != nil {
+		s.avg, s.then = *s.then, nil
+	}
+	s.gmu.Unlock()
+	return v
 }
 func (s *mockSensor) SetMovingAvg(avg float64) { s.avg = avg }
 
@@ -84,6 +92,10 @@ func init() {
 				s.valErr = errors.New("sensor read failed")
 			} else {
 				s.value = parseF(v)
+			}
+			if t := a.str("then", ""); t != "" {
+				v := parseF(t)
+				s.then = &v
 			}
 			sensors.RegisterSensor(s)
 			return "ok"
